@@ -190,6 +190,10 @@ def gen_rank(rng: random.Random, o: Opts, rank: int = 0) -> List[Dict[str, Any]]
 def gen_trace_set(seed: int, n_ranks: int = 1, **kw) -> Dict[int, List[Dict[str, Any]]]:
     rng = random.Random(seed)
     o = Opts(**kw)
+    if "noncomplete_events" not in kw:
+        # every third seed: a file whose entries all carry a duration (the loader then keeps `dur`, ids and links in the
+        # narrowest integer types instead of float64 - a different storage class for every analysis)
+        o.noncomplete_events = seed % 3 != 0
     out = {}
     for r in range(n_ranks):
         o2 = Opts(**dict(o.__dict__))
